@@ -121,6 +121,12 @@ func (c *conn) open(buf []byte) error {
 		return unix.Send(c.fd, buf, 0)
 	}
 
+	// Data written inside OnOpen may still be pending, keep the byte order.
+	if !c.outboundBuffer.IsEmpty() {
+		_, _ = c.outboundBuffer.Write(buf)
+		return nil
+	}
+
 	for {
 		n, err := unix.Write(c.fd, buf)
 		if err != nil {
